@@ -1,5 +1,6 @@
 use super::StorageData;
 use super::StorageSlice;
+use super::write_ahead_log::WriteAheadLog;
 use crate::DbError;
 
 pub struct MemoryStorage {
@@ -24,6 +25,12 @@ impl MemoryStorage {
 
 impl StorageData for MemoryStorage {
     fn backup(&self, name: &str) -> Result<(), DbError> {
+        let stale_wal = WriteAheadLog::wal_filename(name);
+
+        if std::fs::exists(&stale_wal)? {
+            std::fs::remove_file(stale_wal)?;
+        }
+
         std::fs::write(name, &self.buffer)?;
         Ok(())
     }
